@@ -10,6 +10,10 @@ def minKey (l : List (Int × Rat)) : Int × Rat :=
 /-- `peaks ny nx by bx npeaks|- | dy,dx ... | data | thr | mask` -/
 def handlePeaks (op : String) (args : List String) : Option String :=
   match op, splitBar args with
+  | "sepfoot", [[sep]] => do
+      -- `sepfoot <min_separation>` → the (dy,dx) offsets of the separation neighbourhood, raster order
+      let sep ← parseRat? sep
+      some ("ok " ++ joinSp ((sepOffsets sep).map fun o => s!"{o.1},{o.2}"))
   | "peaks", [hd, os, ds, ts, ms] => do
       let [ny, nx, by_, bx, np] := hd | none
       let ny ← parseNat? ny; let nx ← parseNat? nx; let by_ ← parseNat? by_; let bx ← parseNat? bx
